@@ -166,14 +166,18 @@ def gen_reaction(rng, pool, idx):
         src = rng.choice(SMALL + RADICALS)
         g = smiles(src)
         nums = list(g._atoms)
-        if not collide:
-            g.remap({n: 100000 + i for i, n in enumerate(nums)})
-            g.remap({100000 + i: top + i for i in range(len(nums))})
+        g.remap({n: 100000 + i for i, n in enumerate(nums)})
+        g.remap({100000 + i: top + i for i in range(len(nums))})
+        if not collide:      # colliding reagents all start at the same number: union() renumbers the later ones
             top += len(nums)
         reagents.append(g)
+    if collide:
+        top += 60
+        if rng.random() < 0.3 and products:     # a product whose numbers collide with another product: the mapping is lost
+            products = products + [products[0].copy()]
     if shape > 0.97 and reagents:
         reactants, products = [], []
-    if rng.random() < 0.15 and not collide:
+    if rng.random() < 0.15:
         # extra radicals / twins that differ in radical state only, inside one role
         a, bb = smiles('[Na]'), smiles('[Na] |^1:0|')
         a.remap({1: top})
@@ -290,7 +294,7 @@ REPLAY_HEAD = ("from chython import smiles, ReactionContainer\n"
 
 
 def cgr_string(ck, h, what):
-    """str(cgr); None when the library cannot produce it"""
+    """str(cgr); None (and a counterexample) when the library cannot produce it"""
     try:
         return str(h)
     except Exception as e:
@@ -299,17 +303,6 @@ def cgr_string(ck, h, what):
                           f'str() of a condensed graph raises {type(e).__name__}: {e}', what,
                           type(e).__name__, 'a string', 'str(cgr) must exist for the property to be stated',
                           replay_py="from chython import smiles\nprint(str(smiles('CCO') ^ smiles('CC[O-]')))")
-        if not nolen or len(h._atoms) < 2:
-            return None
-    # CGRContainer lacks __len__ (known finding cgr-str:no-len): Morgan.atoms_order raises before it reaches its body.
-    # To keep testing the string clause, the cached property is seeded with exactly what its body computes.
-    from chython.algorithms.morgan import _morgan
-    h.__dict__['atoms_order'] = _morgan({n: hash(a) for n, a in h.atoms()}, h.int_adjacency)
-    try:
-        return str(h)
-    except Exception as e:
-        ck.counterexample('cgr-str-seeded:' + type(e).__name__, f'str() of a condensed graph raises {type(e).__name__}: {e}', what,
-                          type(e).__name__, 'a string', 'str(cgr) must exist for the property to be stated')
         return None
 
 
@@ -367,8 +360,8 @@ def search_order_free(ck, x, rng):
                 ps.append(tuple(q))
             perms.append(ps)
     combos = list(itertools.product(*perms))
-    if len(combos) > 200:
-        combos = [combos[0]] + rng.sample(combos[1:], 199)
+    if len(combos) > 60:
+        combos = [combos[0]] + rng.sample(combos[1:], 59)
     for pr, pg, pp in combos:
         r2 = ReactionContainer([roles[0][i].copy() for i in pr], [roles[2][i].copy() for i in pp], [roles[1][i].copy() for i in pg])
         s2 = str(r2)
@@ -379,7 +372,7 @@ def search_order_free(ck, x, rng):
                               {'roles': rx_repr(rxn), 'permuted': rr}, s2, base, 'all permutations within each role',
                               replay_py=REPLAY_HEAD + f"print(str(build({rx_repr(rxn)!r})))\nprint(str(build({rr!r})))")
             return
-    ck.count(f'search:order-free:perms={min(len(combos), 200) if len(combos) < 25 else "25+"}')
+    ck.count(f'search:order-free:perms={len(combos) if len(combos) < 25 else "25+"}')
 
 
 def search_roundtrip(ck, x):
@@ -615,7 +608,9 @@ def mol_ok_all(r):
 # ---------------------------------------------------------------------------------------------------------------
 # correspondence: the real code and the Coq models on the same inputs
 
-EXTRA = r'''
+EXTRA = r'''From Coq Require Import Ascii.
+Import ListNotations.
+Open Scope Z_scope.
 Definition opt_str_eqb (a b : option string) : bool := option_eqb String.eqb a b.
 Definition all_true (l : list bool) : bool := forallb (fun x => x) l.
 (* MoleculeContainer.compose: observed set iteration orders; result with insertion orders; the canonical-order compose
@@ -642,7 +637,7 @@ Definition dyn_ok (h : cgr) (atoms : list Z) (bonds : list (Z * Z)) : bool :=
 (* ReactionContainer.__format__ for the four combinations of !c and !x; the molecule-level facts the theorems assume *)
 Definition fmol_okb (m : fmol) : bool :=
   let pcs := split_on "."%char (f_smi m) in
-  (f_ncomp m =? Z.of_nat (List.length pcs)) && forallb (fun x => negb (String.eqb x "") && negb (contains ">"%char x)) pcs.
+  (f_ncomp m =? Z.of_nat (List.length pcs)) && forallb (fun x => negb (String.eqb x ""%string) && negb (contains ">"%char x)) pcs.
 Definition fmt_parts (rs gs ps : list fmol) (e e_c e_x e_cx : string) : list bool :=
   [ String.eqb (rxn_format false false rs gs ps) e; String.eqb (rxn_format true false rs gs ps) e_c;
     String.eqb (rxn_format false true rs gs ps) e_x; String.eqb (rxn_format true true rs gs ps) e_cx;
@@ -653,9 +648,9 @@ Definition fmt1_ok (keep no_cx : bool) (rs gs ps : list fmol) (e : string) : boo
 (* the reaction branch of smiles(): roles handed to the molecule parser, radical indices (as a sorted list) *)
 Definition roles_eqb (a b : roles) : bool :=
   match a, b with (x, y, z), (x', y', z') => list_eqb String.eqb x x' && list_eqb String.eqb y y' && list_eqb String.eqb z z' end.
-Definition rd_ok (k : Z) (ignore : bool) (data : string) (exp : pyres (option roles * list Z)) : bool :=
+Definition rd_ok (ignore : bool) (data : string) (exp : pyres (option roles * list Z)) : bool :=
   pyres_eqb (pair_eqb (option_eqb roles_eqb) (list_eqb Z.eqb))
-            (match read_rxn (fun _ => k) ignore data with Ok (r, rad) => Ok (r, zsort rad) | Err e => Err e end) exp.
+            (match read_rxn (fun x => Z.of_nat (String.length x)) ignore data with Ok (r, rad) => Ok (r, zsort rad) | Err e => Err e end) exp.
 (* writer then reader inside the model == what the real reader did with the real writer's string *)
 Definition tok_atom (symbol : string) (organic : bool) (iso : option string) (a : datom) (exp : option string) : bool :=
   opt_str_eqb (cgr_atom_str symbol organic iso a) exp.
@@ -730,7 +725,7 @@ def small_space(ck, rng, full):
     for variant in range(5):
         for gi, g in enumerate(graphs):
             for hi, h in enumerate(graphs):
-                if variant and not full and rng.random() > 0.25:
+                if variant and not full and rng.random() > 0.12:
                     continue
                 shuffle = rng.random() < 0.5
                 out.append((('small', variant, gi, hi, shuffle), build(g, 0, shuffle), build(h, variant, shuffle)))
@@ -883,7 +878,7 @@ def corr_writer(ck, rxns):
 
 # ---- reader
 
-STUB_ATOMS = 6
+STUB_ATOMS = 2   # average characters per piece of the synthetic strings (range of the random radical indices)
 
 
 class Captured(Exception):
@@ -903,7 +898,7 @@ def stubbed_read(data, ignore):
     def post_m(record, **kw):
         raise Captured(('mol', record))
     mod.smiles_tokenize = lambda x: x
-    mod.parser = lambda x, strict: {'atoms': [{} for _ in range(STUB_ATOMS)], 'src': x, 'log': []}
+    mod.parser = lambda x, strict: {'atoms': [{} for _ in range(len(x))], 'src': x, 'log': []}    # at most one atom per character
     mod.postprocess_parsed_reaction = post_r
     mod.postprocess_parsed_molecule = post_m
     try:
@@ -996,7 +991,7 @@ def corr_reader(ck, rxns):
                 continue
             seen.add((s, ignore))
             exp, info = stubbed_read(s, ignore)
-            cases.append(f'rd_ok {STUB_ATOMS} {b(ignore)} {cstr_any(s)} ({exp})')
+            cases.append(f'rd_ok {b(ignore)} {cstr_any(s)} ({exp})')
             meta.append(('read', s, ignore, exp[:200]))
             ck.case(('read', s, ignore), nontrivial=exp.startswith('Ok (Some'))
             ck.count(f'reader:{kind}:' + (exp.split()[0] + ' ' + exp.split()[1].strip('(') if not exp.startswith('Ok (Some') else 'reaction'
